@@ -970,7 +970,22 @@ impl<'a> G<'a> {
             && (f.frame > 0 || f.st.defined & bit(f.acc) != 0)
             && self.want(Inject::ReadUnassigned, f)
         {
-            let l = if f.frame > 0 {
+            let l = if f.st.defined & bit(f.acc) != 0 && self.rng.chance(0.3) {
+                // with an innocent sibling: on the other arm of a branch the register is assigned and then
+                // read (clean, in the base program too); only the read on this arm is a violation
+                let l_else = self.label("sib_else");
+                let l_end = self.label("sib_end");
+                self.emit(Ins::Branch { c: Cond::Eq, rs1: f.acc, rs2: ZERO, label: l_else.clone() });
+                let k = self.imm12();
+                self.emit(Ins::li(f.never, k));
+                self.emit(Ins::Alu { op: AluOp::Add, rd: f.acc, rs1: f.acc, rs2: f.never });
+                self.emit(Ins::j(&l_end));
+                self.emit_label(&l_else);
+                let l = self.emit_flag(Ins::Alu { op: AluOp::Add, rd: f.acc, rs1: f.acc, rs2: f.never }, Flag::ViolOnly);
+                self.emit_label(&l_end);
+                f.st.pending |= bit(f.acc);
+                l
+            } else if f.frame > 0 {
                 let off = f.spare.first().copied().unwrap_or(0);
                 if self.rng.chance(0.4) {
                     // the first reader also overwrites the register it reads
